@@ -1,0 +1,15 @@
+//go:build verif
+
+package kafka
+
+// Accessor for the external verification harness (build tag `verif`).
+// Nothing here is used by production code.
+
+// VerifSwapClient replaces the KafkaClient interface value of a started
+// plugin and returns the previous one (the caller closes it). Call it after
+// Start and before the first Out.
+func VerifSwapClient(p *Plugin, c KafkaClient) KafkaClient {
+	old := p.client
+	p.client = c
+	return old
+}
